@@ -25,6 +25,7 @@ type NetRequest struct {
 	Body   []byte
 	Ctx    context.Context
 	Raw    *http.Request
+	Task   string // id of the registered task that issued the request ("" for plain goroutines)
 }
 
 // NetReply describes what comes back. Zero latency is replaced by a strictly positive
@@ -39,6 +40,7 @@ type NetReply struct {
 	BodyErr error // returned by Body.Read after the last byte instead of io.EOF
 	// NoLength suppresses Content-Length (chunked transfer); ContentLength overrides it (-2 = unset).
 	NoLength      bool
+	EOFWithData   bool // the last Read returns its bytes together with io.EOF (legal io.Reader behaviour, as net/http does)
 	ContentLength int64
 	SetCL         bool
 }
@@ -78,6 +80,9 @@ func (n *Net) Do(req *http.Request) (*http.Response, error) {
 	ctx := req.Context()
 	nr := &NetRequest{Method: req.Method, Host: req.URL.Host, Path: req.URL.Path, Query: req.URL.RawQuery,
 		Header: req.Header.Clone(), Body: body, Ctx: ctx, Raw: req}
+	if t := w.current(); t != nil {
+		nr.Task = t.ID
+	}
 	key := fmt.Sprintf("%s %s%s?%s #%x", req.Method, req.URL.Host, req.URL.Path, req.URL.RawQuery, md5.Sum(body))
 	key = key[:len(key)-24]
 	rep := w.Park("net-send", key, nil, func() any {
@@ -131,7 +136,7 @@ func (n *Net) Do(req *http.Request) (*http.Response, error) {
 		Proto: "HTTP/1.1", ProtoMajor: 1, ProtoMinor: 1,
 		Header: h, Request: req,
 		ContentLength: int64(len(rep.Body)),
-		Body:          &simBody{r: bytes.NewReader(rep.Body), err: rep.BodyErr},
+		Body:          &simBody{r: bytes.NewReader(rep.Body), err: rep.BodyErr, eofWithData: rep.EOFWithData},
 	}
 	if rep.NoLength {
 		resp.ContentLength = -1
@@ -149,12 +154,16 @@ func (n *Net) Do(req *http.Request) (*http.Response, error) {
 }
 
 type simBody struct {
-	r   *bytes.Reader
-	err error
+	r           *bytes.Reader
+	err         error
+	eofWithData bool
 }
 
 func (b *simBody) Read(p []byte) (int, error) {
 	n, err := b.r.Read(p)
+	if err == nil && b.eofWithData && b.r.Len() == 0 {
+		err = io.EOF
+	}
 	if err == io.EOF && b.err != nil {
 		err = b.err
 	}
